@@ -125,6 +125,31 @@ sys.exit(1 if bad else 0)
 '''
 
 
+REPLAY_GAP = '''
+# metadata written into non-adjacent subdirectories (a whole subdirectory period never written in between): range reads across the gap and
+# read_latest return everything, for a reader created before and one created after the second write
+from vlib import build
+import tempfile, os, shutil, sys, warnings
+warnings.simplefilter('ignore')
+drf = build.load_pkg()
+top = tempfile.mkdtemp(); md = os.path.join(top, 'md'); os.makedirs(md)
+w = drf.DigitalMetadataWriter(md, 20, 10, 1, 1, 'md')
+w.write([1000003], [{'v': 1}])
+r_old = drf.DigitalMetadataReader(md)
+w.write([1000047, 1000095], [{'v': 2}, {'v': 3}])
+bad = 0
+for nm, r in (('reader created before', r_old), ('reader created after', drf.DigitalMetadataReader(md))):
+    got = (r.get_bounds(), sorted(int(k) for k in r.read(1000000, 1000099).keys()), sorted(int(k) for k in r.read_latest().keys()), sorted(int(k) for k in r.read(1000050, 1000060, method='ffill').keys()))
+    want = ((1000003, 1000095), [1000003, 1000047, 1000095], [1000095], [1000047])
+    if got != want: print(nm, 'the writes reports', got, 'expected', want); bad = 1
+shutil.rmtree(top)
+sys.exit(1 if bad else 0)
+'''
+
+MDLIST = {'_md_file_list': 'metadata reader: the candidate files of read(s0, s1) are exactly the existing files of the periods of s0 .. s1, ascending, whichever other files and subdirectories exist or are missing in between (six file periods in three subdirectories, existence of every file and empty subdirectory symbolic)',
+          '_md_list_witness': 'reachability: a candidate list spanning the first and the last subdirectory'}
+
+
 def main(tier):
     rep = common.Report('C20', tier, 'model_checking', functions=FUNCS)
     st = smt.Stats()
@@ -137,6 +162,8 @@ def main(tier):
     chx.report(rep, res, META, replays=dict({k: body for k in META}, _reader_sees_write=live, _read_latest=live, _bounds=live, _add_metadata_nondestructive=lambda kw: REPLAY_COLS), sigs={k: 'C20.' + k.strip('_') for k in META})
     res = chx.run_module('reader', names=list(READER), per_condition_timeout=T)
     chx.report(rep, res, READER, replays={k: body for k in READER}, sigs={k: 'C20.' + k.strip('_') for k in READER})
+    res = chx.run_module('mdlist', per_condition_timeout=300 if tier == 'quick' else 900)
+    chx.report(rep, res, MDLIST, replays={'_md_file_list': lambda kw: REPLAY_GAP}, sigs={'_md_file_list': 'C20.md_file_list'})
     # real-tree validation: reading a valid tree changes nothing; writes are visible to earlier and later readers
     path = rep.write_replay('real_tree', REPLAY)
     ok, out = rep.run_replay(path)
